@@ -361,9 +361,9 @@ fn format(opt: opt::Opt) -> Result<i32> {
                         };
                     }
                     FormatResult::Diff(diff) => {
-                        if EXIT_CODE.load(Ordering::SeqCst) != 2 {
-                            EXIT_CODE.store(1, Ordering::SeqCst);
-                        }
+                        // Only ever raise the exit code: an error (2) reported concurrently by
+                        // another thread must not be overwritten by this diff (1)
+                        EXIT_CODE.fetch_max(1, Ordering::SeqCst);
 
                         UNFORMATTED_FILE_COUNT.fetch_add(1, Ordering::SeqCst);
 
